@@ -461,6 +461,16 @@ class LinExpr(object):
     def is_const(self):
         return not self.t
 
+    def exact_div(self, k):
+        """self / k when every coefficient stays integral, else None"""
+        k = Fraction(k)
+        if k == 0:
+            return None
+        r = self.scale(1 / k)
+        if all(c.denominator == 1 for _, c in r.t) and r.c.denominator == 1:
+            return r
+        return None
+
     def __eq__(self, o):
         if not isinstance(o, (LinExpr, int, Fraction, str)):
             return False
@@ -724,3 +734,9 @@ def weaken_av(v, pc):
         items = tuple(weaken_av(i, pc) for i in items)
     elem = weaken_av(v.elem, pc) if v.elem is not None else None
     return v.replace(alg=alg, items=items, elem=elem)
+
+
+def opaque_sym(op, *parts):
+    """Deterministic opaque integer/real identity (global value numbering): same operator on the same symbolic
+    operands gives the same atom."""
+    return LinExpr("%s[%s]" % (op, ",".join(repr(p) for p in parts)))
